@@ -52,11 +52,14 @@ def fuel_for(case):
     pieces = 0
     for t in case["chain"]:
         if t["type"] == "slicer":
-            a = max(1, int(t["attributes"].get("average_size", 1)) - int(t["attributes"].get("size_variation", 0)))
+            av, sv = int(t["attributes"].get("average_size", 1)), int(t["attributes"].get("size_variation", 0))
+            a = max(1, av - sv) if 0 <= sv < av else 1
             pieces += nbytes // a + 4
         if t["type"] == "bandwidth":
             r = max(1, int(t["attributes"].get("rate", 1)))
             pieces += nbytes // (100 * r) + 4
+            if int(t["attributes"].get("rate", 1)) == 0:
+                pieces += case["horizon"] // (100 * MS) + 4       # rate 0: an empty instalment every 100 ms, for ever
     n_ev = len(case["src"]) + nbytes // 32768 + 2
     return 200 + (n_ev + pieces) * (len(case["chain"]) + 3) * 8
 
@@ -190,6 +193,8 @@ def est_pieces(case):
         a = t["attributes"]
         if t["type"] == "slicer" and t.get("toxicity", 1) >= 1:
             size = max(1, (int(a.get("average_size", 1)) + 1) // 2)
+            if not (0 <= int(a.get("size_variation", 0)) < int(a.get("average_size", 1))):
+                size = 1            # outside the documented range the arithmetic may wrap: down to one-byte pieces
             est = max(est, nbytes // size + nchunks)
         if t["type"] == "bandwidth" and t.get("toxicity", 1) >= 1:
             r = max(1, int(a.get("rate", 1)))
